@@ -329,6 +329,15 @@ def invalid_argument_probes(ctx, scene):
         ('non-corrector in the list', lambda ims: dict(wcscat=ims + [42]), (TypeError, AttributeError)),
         ('empty reference table', lambda ims: dict(wcscat=ims, refcat=Table([rd[:0, 0], rd[:0, 1]],
                                                                             names=('RA', 'DEC'))), (ValueError,)),
+        # arguments that only the fitter inspects (the first fit raises, before any WCS is touched): they must
+        # not be mistaken for a fit that cannot be made and reported as a FAILED status
+        ('negative nclip', lambda ims: dict(wcscat=ims, nclip=-1), (ValueError,)),
+        ('negative sigma', lambda ims: dict(wcscat=ims, sigma=(-3.0, 'rmse')), (ValueError,)),
+        ('zero sigma', lambda ims: dict(wcscat=ims, sigma=0.0), (ValueError,)),
+        ('unknown clipping statistic', lambda ims: dict(wcscat=ims, sigma=(3.0, 'median')), (ValueError,)),
+        ('sigma None with clipping', lambda ims: dict(wcscat=ims, sigma=None, nclip=2), (ValueError,)),
+        ('negative nclip with a reference table',
+         lambda ims: dict(wcscat=ims, nclip=-2, refcat=Table([rd[:, 0], rd[:, 1]], names=('RA', 'DEC'))), (ValueError,)),
     ]
     for name, mk, excs in probes:
         ims = fresh()
